@@ -44,7 +44,7 @@ def shards(tier: str, seed: int) -> list[dict[str, Any]]:
 def required_reach(tier: str) -> dict[str, int]:
     return {"client.reads": 2000, "client.writes": 500, "split.inside-line": 500, "coalesced": 100, "timeout.mid-line": 200, "timeout.empty-buffer": 20,
             "eof.boundary": 50, "eof.mid-line": 200, "server.requests": 1000, "server.eof.mid-line": 50, "kind.tcp-lines": 100, "kind.unix-lines": 100,
-            "long-message": 5, "burst": 5, "connect-path": 20}
+            "long-message": 5, "burst": 5, "connect-path": 20, "server.eof-with-data": 50}
 
 
 def gen_messages(rng: random.Random, short: bool) -> list[bytes]:
@@ -189,7 +189,7 @@ async def client_write_case(kind: str, msgs: list[bytes]) -> bytes:
     return bytes(w.buffer)
 
 
-async def server_case(msgs: list[bytes], cuts: list[int], eof_at: int | None) -> dict[str, Any]:
+async def server_case(msgs: list[bytes], cuts: list[int], eof_at: int | None, eof_with_data: bool = False) -> dict[str, Any]:
     from gallia.services.uds.server import TCPUDSServerTransport
     from gallia.transports.base import TargetURI
 
@@ -209,11 +209,17 @@ async def server_case(msgs: list[bytes], cuts: list[int], eof_at: int | None) ->
     if eof_at is not None:
         stream = stream[:eof_at]
     task = asyncio.ensure_future(tr.handle_client(reader, writer))  # type: ignore[arg-type]
-    await feed(reader, stream, [c for c in cuts if c < len(stream)], 0, False)
-    for _ in range(10):
-        await asyncio.sleep(0)
-    early = task.done()
-    reader.feed_eof()
+    if eof_with_data:
+        # the client sends its burst and closes at once: end of stream is already known while complete lines still wait in the buffer
+        reader.feed_data(stream)
+        reader.feed_eof()
+        early = False
+    else:
+        await feed(reader, stream, [c for c in cuts if c < len(stream)], 0, False)
+        for _ in range(10):
+            await asyncio.sleep(0)
+        early = task.done()
+        reader.feed_eof()
     exc = None
     try:
         await asyncio.wait_for(task, 5)
@@ -321,13 +327,16 @@ class Mon:
         if lines[-1] != b"" or dec != msgs:
             ctx.violation("client/write/encoding", "bytes put on the stream do not decode to the written message sequence", {"kind": kind, "messages": msgs[:6], "stream": out[:200]})
 
-    def check_server(self, msgs: list[bytes], cuts: list[int], eof_at: int | None) -> None:
+    def check_server(self, msgs: list[bytes], cuts: list[int], eof_at: int | None, eof_with_data: bool = False) -> None:
         ctx = self.ctx
         stream = encode(msgs)
         midline_eof = eof_at is not None and 0 < eof_at < len(stream) and stream[eof_at - 1 : eof_at] != b"\n"
         w = {"messages": msgs if len(msgs) <= 8 and all(len(m) <= 40 for m in msgs) else f"{len(msgs)} messages", "cuts": cuts[:20], "eof_at": eof_at}
         ctx.case(("server", tuple(msgs) if len(msgs) < 6 else hash(tuple(msgs)), tuple(cuts), eof_at), nontrivial=True)
-        out = self.run(server_case(msgs, cuts, eof_at), w, "server-loop")
+        if eof_with_data:
+            ctx.reach("server.eof-with-data")
+            w["eof_with_data"] = True
+        out = self.run(server_case(msgs, cuts, eof_at, eof_with_data), w, "server-loop")
         if out is None:
             return
         complete = list(msgs) if eof_at is None else [unhexlify(l) for l in stream[:eof_at].split(b"\n")[:-1]]
@@ -387,6 +396,7 @@ def run(ctx: Any, params: dict[str, Any]) -> None:
         if i % 4 < 2:
             mon.check_connect_path(kind, [rng.randbytes(n) for n in rng.sample([1, 2, 255, 2047, 2048, 2049, 3000, 4094, 4095], 4)] + msgs[:3])
         mon.check_server(msgs, plans[1], rng.choice([None, None, rng.randrange(len(stream) + 1)]))
+        mon.check_server(msgs, [], rng.choice([None, None, rng.randrange(len(stream) + 1)]), eof_with_data=True)
         if i % 20 == 0:
             ctx.sample({"kind": kind, "messages": [m for m in msgs[:4]], "cuts": plans[1][:8]})
         if ctx.out_of_time():
@@ -412,4 +422,4 @@ def replay(ctx: Any, witness: dict[str, Any]) -> None:
     elif "kind" in witness:
         mon.check_read(witness["kind"], msgs, witness.get("cuts", []), witness.get("gap", 0), witness.get("eof_at"))
     else:
-        mon.check_server(msgs, witness.get("cuts", []), witness.get("eof_at"))
+        mon.check_server(msgs, witness.get("cuts", []), witness.get("eof_at"), witness.get("eof_with_data", False))
